@@ -1,6 +1,86 @@
 /-
-  Property C13 — property theorems only (helper lemmas live next to the model).
-  Stub: nothing claimed yet.
+  Property C13 — coroutines: each suspension resumed exactly once, on its executor, right result;
+  coroutine futex wake_one / wake_all / cancel / non-matching wait / no bookkeeping leak.
+  Property theorems only; models in Babylon/Coro/{Futex,Cancel,Await}.lean, lemmas in
+  Babylon/Coro/Lemmas*.lean.
 -/
+import Babylon.Gen.Coro
+import Babylon.Coro.Futex
+import Babylon.Coro.Cancel
+import Babylon.Coro.Await
+
 namespace Babylon.Properties.C13
+open Babylon.Coro Babylon.Gen.Coro
+
+/-! ## Generated obligations: the source still has the statements the models were written against -/
+
+/-- `Futex::wake_one`: the scan unlinks the first node, saves `next` BEFORE clearing it and advances
+through the saved pointer (repaired shape of DESIGN 7 #3). -/
+theorem gen_wake_one :
+    stmts_wake_one = [
+      "auto&box=DepositBox<Node>::instance()", "Node*node=nullptr", "lock_guard<mutex>lock", "_mutex",
+      "Node*next_node=nullptr", "for(node=_awaiter_head.next;node!=nullptr;node=next_node)",
+      "next_node=node->next", "if(next_node!=nullptr)", "next_node->prev=&_awaiter_head",
+      "_awaiter_head.next=next_node", "node->prev=nullptr", "node->next=nullptr",
+      "if(box.take_released(node->id))", "break", "if(node)", "node->promise->resume(node->handle)",
+      "box.finish_released(node->id)", "return1", "return0"] ∧
+    wakeOneSavesNext = true ∧ wakeOneAdvance = ["node=next_node"] := by decide
+
+/-- `Futex::wake_all`: two phases; the second loop reads `node->next` BEFORE `finish_released`
+(repaired shape of DESIGN 7 #4) — the shape flag the model is instantiated with. -/
+theorem gen_wake_all :
+    stmts_wake_all = [
+      "auto&box=DepositBox<Node>::instance()", "Node*head=nullptr", "lock_guard<mutex>lock", "_mutex",
+      "head=_awaiter_head.next", "_awaiter_head.next=nullptr", "autotail=&head",
+      "for(autonode=head;node!=nullptr;node=node->next)", "node->prev=nullptr",
+      "if(box.take_released(node->id))", "tail=&(node->next)", "else", "*tail=node->next", "intwaked=0",
+      "for(autonode=head;node!=nullptr;)", "autonext_node=node->next", "node->promise->resume(node->handle)",
+      "box.finish_released(node->id)", "node=next_node", "waked++", "returnwaked"] ∧
+    wakeAllNextFirst = true := by decide
+
+theorem gen_add_awaiter :
+    stmts_add_awaiter = [
+      "lock_guard<mutex>lock", "_mutex", "if(expected_value==_value)", "node->prev=&_awaiter_head",
+      "node->next=_awaiter_head.next", "_awaiter_head.next=node", "if(node->next)", "node->next->prev=node",
+      "returntrue", "returnfalse"] := by decide
+
+theorem gen_remove_awaiter :
+    stmts_remove_awaiter = [
+      "lock_guard<mutex>lock", "_mutex", "if(node->prev)", "node->prev->next=node->next", "if(node->next)",
+      "node->next->prev=node->prev"] := by decide
+
+/-- `Futex::Awaitable::await_suspend`: emplace, fill the node, add_awaiter; on failure take and finish
+the own slot (repaired shape of DESIGN 7 #5), on success hand out the token. -/
+theorem gen_await_suspend :
+    stmts_await_suspend = [
+      "auto&box=DepositBox<Node>::instance()", "autoid=box.emplace()", "autonode=&box.unsafe_get(id)",
+      "node->futex=_futex", "node->id=id", "node->promise=&handle.promise()", "node->handle=handle",
+      "autosuccess=_futex->add_awaiter(node,_expected_value)", "if(!success)", "box.take_released(id)",
+      "box.finish_released(id)", "elseif(_on_suspend)", "_on_suspend({id})", "returnsuccess"] ∧
+    waitFailRecycles = true := by decide
+
+theorem gen_cancel :
+    stmts_cancel = [
+      "auto&box=DepositBox<Node>::instance()", "autonode=box.take_released(id)", "if(!node)", "returnfalse",
+      "node->futex->remove_awaiter(node)", "node->promise->resume(node->handle)", "box.finish_released(id)",
+      "returntrue"] := by decide
+
+/-- cancellable wrapper -/
+theorem gen_cancellable :
+    stmts_bc_cancel = Cancel.Stmts.bc_cancel ∧ stmts_bc_resume = Cancel.Stmts.bc_resume ∧
+    stmts_bc_do_cancel = Cancel.Stmts.bc_do_cancel ∧ stmts_bc_do_resume = Cancel.Stmts.bc_do_resume ∧
+    stmts_c_await_resume = Cancel.Stmts.c_await_resume ∧ stmts_accessor_dtor = Cancel.Stmts.accessor_dtor := by decide
+
+/-- task / promise / future awaitable -/
+theorem gen_await :
+    stmts_final_await_suspend = Await.Stmts.final_await_suspend ∧
+    stmts_awaiter_inplace_resumable = Await.Stmts.awaiter_inplace_resumable ∧
+    stmts_inplace_resumable = Await.Stmts.inplace_resumable ∧
+    stmts_resume_awaiter = Await.Stmts.resume_awaiter ∧ stmts_promise_resume = Await.Stmts.promise_resume ∧
+    stmts_task_await_suspend = Await.Stmts.task_await_suspend ∧
+    stmts_task_await_suspend_p = Await.Stmts.task_await_suspend_p ∧
+    stmts_future_await_ready = Await.Stmts.future_await_ready ∧
+    stmts_future_await_suspend = Await.Stmts.future_await_suspend ∧
+    stmts_set_awaiter = Await.Stmts.set_awaiter := by decide
+
 end Babylon.Properties.C13
